@@ -2,8 +2,13 @@
 //! toggles (C03: `simtrace` worker), async swap (C33), module cache (C34),
 //! plus `GEN`, a generator probe used to tune DesignGen.
 
+mod c02;
+mod c03;
+mod c33;
+mod c34;
 mod common;
 mod genprobe;
+mod runfile;
 
 use vcommon::Args;
 
@@ -12,6 +17,12 @@ fn main() {
     let args = Args::parse();
     match args.prop.as_str() {
         "GEN" => genprobe::main(args),
+        "C02" => c02::main(args),
+        "RUN" => runfile::main(args),
+        "C03" => c03::main(args),
+        "C33" => c33::main(args),
+        "C34" => c34::main(args),
+        "C03WORKER" => c03::worker(args),
         p => {
             eprintln!("mon_sim: unknown property {p}");
             std::process::exit(2);
